@@ -275,7 +275,7 @@ bool Directory::exists(const String& dir)
 bool Directory::create(const String& dir)
 {
   String parent = File::getDirectoryName(dir);
-  if(parent != "." && !Directory::exists(parent))
+  if(!parent.isEmpty() && parent != "." && !Directory::exists(parent))
   {
     if(!Directory::create(parent))
       return false;
@@ -286,9 +286,15 @@ bool Directory::create(const String& dir)
   if(mkdir(dir, S_IRUSR | S_IWUSR | S_IXUSR | S_IRGRP | S_IXGRP | S_IROTH | S_IXOTH) != 0)
 #endif
   {
-    String basename = File::getBaseName(dir);
-    if(basename == "." || basename == "..")
+#ifndef _WIN32
+    int err = errno;
+#endif
+    if(Directory::exists(dir)) // e.g. it exists already, or the path ends with "." or ".."
       return true;
+#ifndef _WIN32
+    errno = err;
+#endif
+    return false;
   }
   return true;
 }
